@@ -124,7 +124,7 @@ pub fn free_port() -> u16 {
 /// waits until a socket listens on the port (reads /proc/net/tcp; connecting would consume an accept)
 pub fn wait_listening(port: u16) -> bool {
     let needle = format!(":{port:04X} ");
-    for _ in 0..1000 {
+    for _ in 0..600 {
         if let Ok(t) = std::fs::read_to_string("/proc/net/tcp") {
             for line in t.lines().skip(1) {
                 let f: Vec<&str> = line.split_whitespace().collect();
@@ -140,10 +140,10 @@ impl Srv {
     /// the real listener on its own thread and current-thread runtime
     pub fn start(o: &SrvOpts) -> Srv {
         // a port probed as free can be taken by a parallel case before the listener binds it: try again
-        Self::start_opt(o).expect("the listener did not come up in four attempts (listen() fails or returns at once)")
+        Self::start_opt(o).expect("the listener did not come up in three attempts (listen() fails or returns at once)")
     }
     pub fn start_opt(o: &SrvOpts) -> Option<Srv> {
-        for _ in 0..4 { if let Some(s) = Self::try_start(o) { return Some(s); } }
+        for _ in 0..3 { if let Some(s) = Self::try_start(o) { return Some(s); } }
         None
     }
     fn try_start(o: &SrvOpts) -> Option<Srv> {
@@ -207,7 +207,7 @@ pub fn start_app(cfg: passage::config::Config) -> u16 {
         if wait_listening(port) { return port; }
         cfg.address = format!("127.0.0.1:{}", free_port());
     }
-    panic!("the application did not come up in four attempts");
+    panic!("the application did not come up in three attempts");
 }
 
 // ---------------------------------------------------------------- client
